@@ -14,7 +14,7 @@ from .. import cover, gen
 
 LEVEL = 'exploration'
 JOBS = {'quick': 4, 'thorough': 16}
-REQUIRED_MONITORS = ('alignment_postcondition', 'repeat_bit_identical', 'caller_objects_unchanged')
+REQUIRED_MONITORS = ('alignment_postcondition', 'repeat_bit_identical', 'caller_objects_unchanged', 'repeat_in_other_interpreter')
 REQUIRED_CLASSES = ('mobile:collinear-neighbours', 'session:re-aligned', 'session:molecule-replaced', 'session:multi-residue', 'sizes:start-smaller', 'sizes:start-larger', 'sizes:tie', 'mobile:tree', 'mobile:cyclic',
                     'mobile:one-atom', 'hydrogens:ignored', 'hydrogens:kept', 'restraints:none', 'restraints:some',
                     'types:(0,)', 'types:(1,)', 'types:(2,)', 'types:(0, 1)', 'types:default', 'shipped', 'end:one-atom')
@@ -48,12 +48,12 @@ def teardown(ctx):
 
 
 def cases(ctx):
-    n = 1000 if ctx.tier == 'quick' else 12000
+    n = 1000 if ctx.tier == 'quick' else 80000
     for i in range(n):
         yield {'kind': 'gen', 'i': i}
     for i in range(3 if ctx.tier == 'quick' else 30):
         yield {'kind': 'shipped', 'i': i}
-    for i in range(120 if ctx.tier == 'quick' else 2500):
+    for i in range(120 if ctx.tier == 'quick' else 15000):
         yield {'kind': 'session', 'i': i}
 
 
@@ -202,6 +202,59 @@ def drive(ctx, start, end, edges_s, edges_e, cyc_s, cyc_e, restr, rcls, types, i
     d = mob_a - mob_b
     if nm >= 2 and np.abs(d - d[0]).max() > 1e-9:
         ctx.nontrivial(key)
+    return after
+
+
+DRIVER = r'''
+import json, os, sys
+sys.path.insert(0, os.environ['VERIF_REPO_PATH'])
+sys.path.insert(1, os.environ['VERIF_HOME'])
+import warnings; warnings.simplefilter('ignore')
+import numpy as np
+from gmv import gen
+from gaddlemaps import Alignment
+spec = json.load(open(sys.argv[1]))
+mk = lambda names, edges, pos: gen.make_molecule('MOLA', names, [tuple(e) for e in edges], np.array(pos))
+start = mk(spec['names_start'], spec['edges_start'], spec['start_pos'])
+end = mk(spec['names_end'], spec['edges_end'], spec['end_pos'])
+Alignment.STEPS_FACTOR = spec['steps_factor']
+ali = Alignment(start, end)
+out = sys.stdout
+sys.stdout = open(os.devnull, 'w')
+np.random.seed(spec['seed'])
+ali.align_molecules(restrictions=None if spec['restraints'] is None else [tuple(p) for p in spec['restraints']],
+                    deformation_types=None if spec['types'] is None else tuple(spec['types']), ignore_hydrogens=spec['ignore_hydrogens'])
+out.write(json.dumps({'start': ali.start.atoms_positions.tolist(), 'end': ali.end.atoms_positions.tolist()}))
+'''
+
+
+def other_interpreters(ctx, w, after):
+    """The same alignment (inputs and random seed) in fresh interpreters with other hash seeds: bit-identical outcome."""
+    import json
+    import subprocess
+    import sys
+    import tempfile
+    from .. import core
+    spec = {k: (v.tolist() if isinstance(v, np.ndarray) else v) for k, v in w.items()}
+    with tempfile.TemporaryDirectory(prefix='gmv_c06_') as d:
+        sf = os.path.join(d, 'spec.json')
+        with open(sf, 'w') as fh:
+            json.dump(spec, fh)
+        env = dict(os.environ, VERIF_REPO_PATH=core.REPO, VERIF_HOME=os.path.dirname(os.path.dirname(os.path.dirname(os.path.abspath(__file__)))))
+        for h in (1, 2):
+            env['PYTHONHASHSEED'] = str(h)
+            try:
+                r = subprocess.run([sys.executable, '-W', 'ignore', '-c', DRIVER, sf], env=env, capture_output=True, text=True, timeout=600)
+                got = json.loads(r.stdout)
+            except Exception as exc:  # noqa
+                ctx.inconclusive_because(f'alignment driver under PYTHONHASHSEED={h} failed: {exc}')
+                return
+            ctx.monitor('repeat_in_other_interpreter')
+            ctx.hit('repeat:other-hash-seed')
+            if not (np.array_equal(np.array(got['start']), after['start']) and np.array_equal(np.array(got['end']), after['end'])):
+                ctx.violation('not-deterministic:across-interpreters', f'the same inputs and random seed give another outcome under PYTHONHASHSEED={h}',
+                              witness=w)
+                return
 
 
 def gen_restr(rng, cls, n1, n2):
@@ -255,8 +308,10 @@ def run_gen(ctx, case):
          'ignore_hydrogens': ignore_h, 'steps_factor': factor, 'seed': seed,
          'start_pos': np.array(start.atoms_positions), 'end_pos': np.array(end.atoms_positions),
          'names_start': [a.name for a in start], 'names_end': [a.name for a in end]}
-    drive(ctx, start, end, es, ee, cyc_s, cyc_e, restr, rcls, types, ignore_h, factor, seed, w,
-          (n1, n2, cyc_mobile, types, ignore_h, rcls, factor))
+    first = drive(ctx, start, end, es, ee, cyc_s, cyc_e, restr, rcls, types, ignore_h, factor, seed, w,
+                  (n1, n2, cyc_mobile, types, ignore_h, rcls, factor))
+    if i % 50 == 7 and first is not None:
+        other_interpreters(ctx, w, first)
     if i < 3:
         ctx.sample({k: w[k] for k in ('n_start', 'n_end', 'types', 'restraints', 'ignore_hydrogens', 'steps_factor', 'seed')})
 
